@@ -89,6 +89,18 @@ Proof. intro H. unfold countb. rewrite (filter_ext_in p q l H). reflexivity. Qed
 Lemma countb_map {A B} (f : A -> B) (p : B -> bool) l : countb p (map f l) = countb (fun x => p (f x)) l.
 Proof. unfold countb. rewrite filter_map_comm, map_length. reflexivity. Qed.
 
+Lemma existsb_map {A B} (f : A -> B) (p : B -> bool) l : existsb p (map f l) = existsb (fun x => p (f x)) l.
+Proof. induction l as [|x l IH]; cbn; [reflexivity | rewrite IH; reflexivity]. Qed.
+
+Lemma forallb_map {A B} (f : A -> B) (p : B -> bool) l : forallb p (map f l) = forallb (fun x => p (f x)) l.
+Proof. induction l as [|x l IH]; cbn; [reflexivity | rewrite IH; reflexivity]. Qed.
+
+Lemma existsb_ext {A} (p q : A -> bool) l : (forall x, p x = q x) -> existsb p l = existsb q l.
+Proof. intro H. induction l as [|x l IH]; cbn; [reflexivity | rewrite H, IH; reflexivity]. Qed.
+
+Lemma forallb_ext {A} (p q : A -> bool) l : (forall x, p x = q x) -> forallb p l = forallb q l.
+Proof. intro H. induction l as [|x l IH]; cbn; [reflexivity | rewrite H, IH; reflexivity]. Qed.
+
 (* ---------------------------------------------------------------- structure of sem *)
 
 Section Laws.
@@ -117,7 +129,7 @@ Section Laws.
   Proof. unfold Sem.sem. rewrite filter_app, map_app. reflexivity. Qed.
 
   Theorem sem_concat cs q : sem (concat cs) q = concat (map (fun c => sem c q) cs).
-  Proof. induction cs as [|c cs IH]; cbn; [reflexivity|]. rewrite sem_app, IH. reflexivity. Qed.
+  Proof. induction cs as [|c cs IH]; cbn [concat map]; [reflexivity|]. rewrite sem_app, IH. reflexivity. Qed.
 
   Lemma wf_inj c d d' : corpus_wf c -> In d c -> In d' c -> d_num d = d_num d' -> d = d'.
   Proof. intro H. apply NoDup_map_inj. apply sorted_lt_NoDup. exact H. Qed.
@@ -203,7 +215,8 @@ Section Laws.
   Theorem sem_conj_inter c k ks : corpus_wf c ->
     sem c (QConj (k :: ks)) = fold_left inter (map (sem c) ks) (sem c k).
   Proof.
-    intro Hwf. unfold Sem.sem at 2. rewrite fold_inter by exact Hwf. reflexivity.
+    intro Hwf. change (sem c k) with (map d_num (filter (fun d => matches d k) c)).
+    rewrite fold_inter by exact Hwf. reflexivity.
   Qed.
 
   Theorem sem_conj_in c ks n : corpus_wf c ->
@@ -249,9 +262,8 @@ Section Laws.
 
   Theorem sem_disj_nil c min2 : sem c (QDisj min2 []) = [].
   Proof.
-    unfold Sem.sem. replace (filter _ c) with (@nil doc); [reflexivity|].
-    symmetry. induction c as [|d c IH]; cbn; auto.
-    destruct (Z.max 1 (floor_min min2) <=? 0) eqn:E; [apply Z.leb_le in E; lia | exact IH].
+    rewrite <- (sem_none c). apply sem_pointwise. intro d. cbn [Sem.matches].
+    apply Z.leb_gt. unfold countb. cbn. lia.
   Qed.
 
   (* a disjunction is monotone in its minimum *)
@@ -305,21 +317,25 @@ Section Laws.
     sem c (QBool must should min2 mustnot filter)
     = diff (sem c (QBool must should min2 [] filter)) (sem c (QDisj 2 mustnot)).
   Proof.
-    intros Hwf Hne. unfold Sem.sem at 2. rewrite diff_sem by exact Hwf. apply sem_filter_ext.
+    intros Hwf Hne.
+    change (sem c (QBool must should min2 [] filter))
+      with (map d_num (List.filter (fun d => matches d (QBool must should min2 [] filter)) c)).
+    rewrite diff_sem by exact Hwf. apply sem_filter_ext.
     intros d _. cbn [Sem.matches].
     replace (floor_min 2) with 1 by reflexivity. replace (Z.max 1 1) with 1 by reflexivity.
-    rewrite countb_pos.
+    rewrite countb_pos. cbn [nonempty existsb].
     assert (Hb : nonempty must || nonempty should
                  || match filter with Some _ => true | None => false end = true).
     { destruct must; [|reflexivity]. destruct should; [|reflexivity].
       destruct filter; [reflexivity|]. destruct Hne as [H|[H|H]]; congruence. }
-    cbn [nonempty existsb negb].
-    destruct (nonempty must), (nonempty should), (nonempty mustnot), filter as [fq|];
-      cbn in Hb; try discriminate; cbn [orb andb];
-      rewrite ?andb_true_r;
-      repeat match goal with |- context [?x && ?y] => progress (destruct x; cbn [andb negb]) end;
-      try reflexivity;
-      repeat match goal with |- context [negb ?y] => destruct y; cbn [andb negb] end; reflexivity.
+    destruct filter as [fq|];
+      set (hm := nonempty must) in *; set (hs := nonempty should) in *;
+      set (hn := nonempty mustnot); set (A := forallb (matches d) must);
+      set (N := existsb (matches d) mustnot);
+      set (S := if hs then _ else true);
+      try set (F := matches d fq);
+      clearbody hm hs hn A N S; try clearbody F;
+      destruct hm, hs, hn, A, N, S; try destruct F; cbn in *; congruence.
   Qed.
 
   (* De Morgan: must-not only = every document not in the union of the must-not clauses *)
@@ -354,7 +370,7 @@ Section Laws.
   Proof.
     intro Hwf. destruct (nonempty must || nonempty should || nonempty mustnot) eqn:E.
     - unfold Sem.sem at 2. rewrite inter_sem by exact Hwf. apply sem_filter_ext. intros d _.
-      cbn [Sem.matches]. rewrite E. rewrite !orb_true_l, !orb_false_r, !andb_true_r. reflexivity.
+      cbn [Sem.matches]. rewrite E. cbn [orb andb]. rewrite !andb_true_r. reflexivity.
     - rewrite ids_filter, inter_sem by exact Hwf. apply sem_filter_ext. intros d _.
       apply orb_false_iff in E as [E E3]. apply orb_false_iff in E as [E1 E2].
       destruct must; [|discriminate]. destruct should; [|discriminate]. destruct mustnot; [|discriminate].
